@@ -18,7 +18,7 @@ import (
 // application; every DB call of either passes the gate (c28_gate.go), and the
 // rapid-drawn schedule decides which side passes its next gate point.
 
-const c28Rule = "history = realm-deployment block + 3-6 generated blocks (1-3 txs each, at least one Tick moving the realm's VM state and its main-store balance in lockstep; sends, kv writes, package deployments) on the real gno.land app over a gated memdb or pebbledb, prune strategy drawn; a plan of 3-12 queries (vm/qeval, vm/qrender, package-loading qeval, vm/qfile, auth/accounts and .store/main/key with and without height, .app/simulate); consensus and queries run as two goroutines, every DB call (live DB, batch write, snapshot creation/read/close, iterator step) is a gate point and the drawn segment schedule decides which thread passes next. Non-trivial: at least one query whose DB calls straddle a physical write of a commit returned a successful answer, or at least one successful answer was given for a height below the height committed when the query returned. Distinct = distinct (history, plan, schedule)."
+const c28Rule = "history = realm-deployment block + 3-6 generated blocks (1-3 txs each: at least one Tick moving the witness realm's VM state and its main-store balance in lockstep; sends, kv writes, package deployments and CALLS INTO the deployed packages) on the real gno.land app over a gated memdb or pebbledb, prune strategy drawn. Query vocabulary: vm/qeval, vm/qrender, package-loading qeval, qeval of deployed packages, vm/qfile, auth/accounts and .store/main/key with and without height, .app/simulate of a Tick, and .app/simulate of a tx drawn from the block grammar and tied to a tx of the history (the block's own tx byte for byte; the same message by another account - for a deployment the SAME path with a DIFFERENT body; a MsgRun script doing the same realm mutation). Consensus and queries run as two goroutines, every DB call is a gate point; half the cases use a freely drawn segment schedule over an unordered plan, half an aligned plan in which the j-th query runs right after the j-th ABCI call (BeginBlock, each DeliverTx, EndBlock, Commit; with jitter) and is mostly a simulation of the tx just delivered / about to be delivered. Non-trivial: a successful answer whose DB calls straddle a commit's physical write, or a successful answer of a height below the commit under way, or a successful simulation of a block tx that ran after that tx's DeliverTx and before its block's Commit returned. Distinct = distinct (history, plan, schedule)."
 
 var c28Verbose = os.Getenv("C28_VERBOSE") != ""
 
@@ -47,6 +47,45 @@ func c28DrawSeg(rt *rapid.T) C28Seg {
 	return s
 }
 
+// c28DrawFiller draws one query of the general vocabulary.
+func c28DrawFiller(rt *rapid.T, c *C28Case, npkg int, keysUsed []string) C28Query {
+	q := C28Query{}
+	switch rapid.IntRange(0, 15).Draw(rt, "qk") {
+	case 0, 1, 2:
+		q.Kind = "snap"
+	case 3:
+		q.Kind = "render"
+	case 4:
+		q.Kind = "kv"
+		q.Key = rapid.SampledFrom(keysUsed).Draw(rt, "key")
+	case 5:
+		q.Kind = "qfile"
+		q.Pkg = rapid.IntRange(-1, npkg-1).Draw(rt, "pkg")
+	case 6, 7:
+		q.Kind = "acct"
+		q.Acc = rapid.IntRange(0, c.NAcc-1).Draw(rt, "acc")
+		q.HSel = rapid.SampledFrom([]int{0, 0, 1, 2, 3, 4, 5, 6, 7}).Draw(rt, "h")
+	case 8, 9:
+		q.Kind = "store"
+		q.Acc = rapid.IntRange(0, c.NAcc-1).Draw(rt, "acc")
+		q.HSel = rapid.SampledFrom([]int{0, 0, 1, 2, 3, 4, 5, 6, 7}).Draw(rt, "h")
+	case 10:
+		q.Kind = "sim"
+	case 11, 12:
+		q.Kind = "pkgeval"
+		if npkg > 0 {
+			q.Pkg = rapid.IntRange(0, npkg-1).Draw(rt, "pkg")
+		}
+	default:
+		// a simulation drawn from the block grammar, tied to any tx of the history
+		q.Kind = "simtx"
+		q.B = rapid.IntRange(0, len(c.Blocks)-1).Draw(rt, "b")
+		q.I = rapid.IntRange(0, len(c.Blocks[q.B].Txs)-1).Draw(rt, "i")
+		q.Var = rapid.IntRange(0, 2).Draw(rt, "var")
+	}
+	return q
+}
+
 func c28Draw(rt *rapid.T) C28Case {
 	c := C28Case{NAcc: rapid.IntRange(2, 4).Draw(rt, "nacc")}
 	c.Prune = rapid.SampledFrom([]string{"syncable", "syncable", "nothing", "everything"}).Draw(rt, "prune")
@@ -60,55 +99,83 @@ func c28Draw(rt *rapid.T) C28Case {
 		nt := rapid.IntRange(0, 2).Draw(rt, "ntx")
 		for i := 0; i < nt; i++ {
 			tx := C28Tx{Signer: rapid.IntRange(0, c.NAcc-1).Draw(rt, "s")}
-			switch rapid.IntRange(0, 5).Draw(rt, "kind") {
+			k := rapid.IntRange(0, 10).Draw(rt, "kind")
+			if k >= 7 && npkg == 0 {
+				k = 6 // nothing to call yet: deploy instead
+			}
+			if k >= 4 && k <= 6 && npkg >= 3 {
+				k = 7 // enough packages: call one
+			}
+			switch k {
 			case 0, 1:
 				tx.Kind = "tick"
-			case 2, 3:
+			case 2:
 				tx.Kind = "send"
 				tx.To = rapid.IntRange(0, c.NAcc-1).Draw(rt, "to")
 				tx.Amt = rapid.Int64Range(1, 5000).Draw(rt, "amt")
-			case 4:
+			case 3:
 				tx.Kind = "kvset"
 				tx.Key = rapid.SampledFrom([]string{"a", "b"}).Draw(rt, "key")
 				keysUsed = append(keysUsed, tx.Key)
-			default:
+			case 4, 5, 6:
 				tx.Kind = "addpkg"
 				npkg++
+			default:
+				// later txs call into what earlier txs deployed, so that a leak
+				// into the deployed code shows in DeliverTx results
+				tx.Kind = "pkgcall"
+				tx.Pkg = rapid.IntRange(0, npkg-1).Draw(rt, "pkg")
 			}
 			blk.Txs = append(blk.Txs, tx)
 		}
 		c.Blocks = append(c.Blocks, blk)
 	}
-	nq := rapid.IntRange(3, 12).Draw(rt, "nq")
-	for i := 0; i < nq; i++ {
-		q := C28Query{}
-		switch rapid.IntRange(0, 11).Draw(rt, "qk") {
-		case 0, 1, 2:
-			q.Kind = "snap"
-		case 3:
-			q.Kind = "render"
-		case 4:
-			q.Kind = "kv"
-			q.Key = rapid.SampledFrom(keysUsed).Draw(rt, "key")
-		case 5:
-			q.Kind = "qfile"
-			q.Pkg = rapid.IntRange(-1, npkg-1).Draw(rt, "pkg")
-		case 6, 7:
-			q.Kind = "acct"
-			q.Acc = rapid.IntRange(0, c.NAcc-1).Draw(rt, "acc")
-			q.HSel = rapid.SampledFrom([]int{0, 0, 1, 2, 3, 4, 5, 6, 7}).Draw(rt, "h")
-		case 8, 9:
-			q.Kind = "store"
-			q.Acc = rapid.IntRange(0, c.NAcc-1).Draw(rt, "acc")
-			q.HSel = rapid.SampledFrom([]int{0, 0, 1, 2, 3, 4, 5, 6, 7}).Draw(rt, "h")
-		default:
-			q.Kind = "sim"
+	if rapid.IntRange(0, 9).Draw(rt, "mode") < 5 {
+		// free mode: an unordered plan under a freely drawn schedule
+		nq := rapid.IntRange(3, 12).Draw(rt, "nq")
+		for i := 0; i < nq; i++ {
+			c.Queries = append(c.Queries, c28DrawFiller(rt, &c, npkg, keysUsed))
 		}
-		c.Queries = append(c.Queries, q)
+		ns := rapid.IntRange(2, 40).Draw(rt, "nseg")
+		for i := 0; i < ns; i++ {
+			c.Sched = append(c.Sched, c28DrawSeg(rt))
+		}
+		return c
 	}
-	ns := rapid.IntRange(2, 40).Draw(rt, "nseg")
-	for i := 0; i < ns; i++ {
-		c.Sched = append(c.Sched, c28DrawSeg(rt))
+	// aligned mode: the j-th query runs right after the j-th ABCI call of the
+	// consensus thread (BeginBlock, each DeliverTx, EndBlock, Commit), and
+	// the queries next to a tx are mostly simulations drawn from that tx.
+	for b, blk := range c.Blocks {
+		simOf := func(i int) C28Query {
+			return C28Query{Kind: "simtx", B: b, I: i, Var: rapid.IntRange(0, 2).Draw(rt, "var")}
+		}
+		slot := func(q C28Query) {
+			c.Queries = append(c.Queries, q)
+			if rapid.IntRange(0, 5).Draw(rt, "jit") == 0 {
+				// jitter: cut the ABCI call or the query short; the rest runs later
+				n := rapid.IntRange(1, 25).Draw(rt, "cut")
+				if rapid.Bool().Draw(rt, "cutq") {
+					c.Sched = append(c.Sched, C28Seg{T: 0, N: 1}, C28Seg{T: 0, Until: C28KOp}, C28Seg{T: 1, N: n})
+				} else {
+					c.Sched = append(c.Sched, C28Seg{T: 0, N: n}, C28Seg{T: 1, N: 1}, C28Seg{T: 1, Until: C28KOp})
+				}
+				return
+			}
+			c.Sched = append(c.Sched, C28Seg{T: 0, N: 1}, C28Seg{T: 0, Until: C28KOp}, C28Seg{T: 1, N: 1}, C28Seg{T: 1, Until: C28KOp})
+		}
+		pick := func(w int, i int) C28Query { // w of 4: a simulation of tx i, else filler
+			if rapid.IntRange(0, 3).Draw(rt, "rel") < w {
+				return simOf(i)
+			}
+			return c28DrawFiller(rt, &c, npkg, keysUsed)
+		}
+		// after BeginBlock: possibly the simulation of a tx the block is about to deliver
+		slot(pick(2, rapid.IntRange(0, len(blk.Txs)-1).Draw(rt, "i")))
+		for i := range blk.Txs {
+			slot(pick(3, i)) // after its DeliverTx, before the Commit
+		}
+		slot(pick(2, rapid.IntRange(0, len(blk.Txs)-1).Draw(rt, "i"))) // after EndBlock
+		slot(c28DrawFiller(rt, &c, npkg, keysUsed))                     // after Commit
 	}
 	return c
 }
@@ -146,6 +213,8 @@ func c28Exec(t *testing.T) func(ctx *vk.Ctx, c C28Case) error {
 		ready := make(chan struct{}, 2)
 		var consPanic, queryPanic any
 		var isolated []bool
+		var ops atomic.Int64 // ABCI calls started by the consensus thread
+		var sOps, eOps []int64
 		g.Arm()
 		go func() { // consensus
 			th := g.Register(0)
@@ -154,11 +223,12 @@ func c28Exec(t *testing.T) func(ctx *vk.Ctx, c C28Case) error {
 			defer g.Done(th)
 			defer func() { consPanic = recover() }()
 			for h := 2; h <= ref.Last; h++ {
-				hash, res := C28ConsBlock(app, ref, h, func() { g.Point(C28KOp) },
+				hash, res := C28ConsBlock(app, ref, h, func() { ops.Add(1); g.Point(C28KOp) },
 					func(h int) { entered.Store(int64(h)) }, func(h int) { done.Store(int64(h)) })
 				obs.Hash = append(obs.Hash, hash)
 				obs.Res = append(obs.Res, res)
 			}
+			ops.Add(1)
 		}()
 		go func() { // queries
 			th := g.Register(1)
@@ -170,8 +240,11 @@ func c28Exec(t *testing.T) func(ctx *vk.Ctx, c C28Case) error {
 				g.Point(C28KOp)
 				th.OpStart()
 				lo := int(done.Load())
-				a := C28Ask(app, q, c, ref.SimTx)
+				so := ops.Load()
+				a := C28Ask(app, q, c, ref)
 				hi := int(entered.Load())
+				sOps = append(sOps, so)
+				eOps = append(eOps, ops.Load())
 				obs.Answers = append(obs.Answers, a)
 				obs.Lo = append(obs.Lo, lo)
 				obs.Hi = append(obs.Hi, hi)
@@ -211,6 +284,12 @@ func c28Exec(t *testing.T) func(ctx *vk.Ctx, c C28Case) error {
 				nt = true
 				continue
 			}
+			// the other known divergence: the legacy live path (the query read
+			// the live DB) answered "absent" for the height being committed
+			if _, ok := err.(*C28LiveRace); ok && !isolated[i] && ctx.Known(C28KeyLiveFallback) {
+				ctx.Class("known:" + C28KeyLiveFallback)
+				continue
+			}
 			if err != nil {
 				return fmt.Errorf("query #%d (started with height %d committed, returned with commit of %d entered, straddled a write: %v, all reads from one snapshot: %v): %v", i, obs.Lo[i], obs.Hi[i], obs.Strad[i], isolated[i], err)
 			}
@@ -230,6 +309,39 @@ func c28Exec(t *testing.T) func(ctx *vk.Ctx, c C28Case) error {
 			}
 			if q.Height(c) > 0 {
 				ctx.Class("ok-answer-explicit-height")
+			}
+			if q.Kind == "sim" || q.Kind == "simtx" {
+				ctx.Class("simulate-succeeded")
+			}
+			if q.Kind == "simtx" {
+				// ABCI call indices (0-based over the gated blocks) of the tx's
+				// DeliverTx and of its block's Commit
+				base := 0
+				for b := 0; b < q.B; b++ {
+					base += len(c.Blocks[b].Txs) + 3
+				}
+				dIdx := int64(base + 1 + q.I)
+				cIdx := int64(base + len(c.Blocks[q.B].Txs) + 2)
+				// the query ended after that DeliverTx had returned and began
+				// before that Commit had returned
+				inFlight := eOps[i] >= dIdx+2 && sOps[i] <= cIdx+1
+				kind := c.Blocks[q.B].Txs[q.I].Kind
+				if inFlight {
+					ctx.Class("simulate-of-just-delivered-tx-before-its-commit:" + kind)
+					if kind == "addpkg" && q.Var == 1 {
+						ctx.Class("simulate-addpkg-colliding-with-block")
+					}
+					if q.Var == 0 {
+						ctx.Class("simulate-identical-to-block-tx-in-flight")
+					}
+					if q.Var == 2 && kind != "addpkg" && kind != "send" {
+						ctx.Class("simulate-msgrun-mutating-state-the-block-mutates")
+					}
+					nt = true
+				}
+				if eOps[i] < dIdx+1 && sOps[i] >= int64(base) {
+					ctx.Class("simulate-of-block-tx-before-its-delivertx")
+				}
 			}
 		}
 		ctx.ClassIf(handovers > 0, "lock-handover")
